@@ -6,7 +6,7 @@ from vlib import common
 # which design variant of ATP.tla the CURRENT code implements (changed together with the repairs)
 DESIGN = dict(MergedExit=True, LateClose=True)
 
-DROP = {"t.c2s.wfail", "t.c2s.rfail", "s.stdin.close", "t.s2c.wfail", "t.s2c.rfail", "t.s2c.rclose",
+DROP = {"e.wfail", "t.c2s.wfail", "s.stdin.close", "t.s2c.wfail", "t.s2c.rfail", "t.s2c.rclose",
         "s.step.done", "s.closure.fatal", "c.loop.start"}
 
 
@@ -17,6 +17,11 @@ def role_run(role):
 def flatten(e):
     """one hook event -> the uniform record ATPTrace.tla reads, or None for stuttering events"""
     ev, kv, role = e["ev"], e.get("kv") or {}, e.get("role", "")
+    if ev == "t.c2s.rfail":
+        # end of input seen by the server's decoder = taking the end-of-stream marker off the wire
+        if kv.get("why") == "eof" and role == "srvloop":
+            return dict(ev="t.c2s.read", r="", k="", n=1, b=False, rs=[])
+        return None
     if ev in DROP:
         return None
     o = dict(ev=ev, r=kv.get("run", "") or "", k="", n=0, b=False, rs=[])
@@ -29,7 +34,10 @@ def flatten(e):
         o["b"] = bool(kv.get("loop"))
     elif ev in ("c.send", "c.sent"):
         o["k"] = kv.get("kind", "")
-    elif ev in ("t.c2s.write", "t.c2s.read", "t.s2c.write", "t.s2c.read"):
+    elif ev == "e.write":
+        o["k"] = kv.get("kind", "")
+        o["b"] = bool(kv.get("whole", True))
+    elif ev in ("t.c2s.write", "t.c2s.read", "t.s2c.write", "t.s2c.read", "e.read"):
         o["n"] = int(kv.get("frags", 0))
     elif ev == "c.take":
         o["b"] = bool(kv.get("err")) or bool(kv.get("missing"))
@@ -87,11 +95,33 @@ CONSTANTS
   MergedExit = %s
   LateClose = %s
   NoRun = ""
+  MaxEnv = 100000
 INVARIANT TraceInv
 CONSTRAINT HighWater
 POSTCONDITION Accepted
 """ % (tla_set(runs), cap, tla_set(sig), tla_set(badsig),
        "TRUE" if d["MergedExit"] else "FALSE", "TRUE" if d["LateClose"] else "FALSE"))
+
+
+def merge_env(evs):
+    """scripted-client sessions: e.send + the transport write that follows it become one e.write line;
+    reads by the scripted client become e.read"""
+    out, pending = [], None
+    for e in evs:
+        ev, role = e["ev"], e.get("role", "")
+        if ev == "e.send":
+            pending = e
+            continue
+        if ev == "t.c2s.write" and role == "env:writer" and pending is not None:
+            kv = dict(pending["kv"])
+            out.append(dict(e, ev="e.write", kv=dict(run=kv.get("run", ""), kind=kv.get("kind", ""), whole=kv.get("whole", True))))
+            pending = None
+            continue
+        if ev == "t.s2c.read" and role == "env:reader":
+            out.append(dict(e, ev="e.read"))
+            continue
+        out.append(e)
+    return out
 
 
 def validate(ctx, sessions, runs, cap, sig, badsig, design=None, label="trace"):
@@ -101,7 +131,7 @@ def validate(ctx, sessions, runs, cap, sig, badsig, design=None, label="trace"):
     for sid, evs in sessions:
         lines.append(dict(ev="reset", r="", k="", n=0, b=False, rs=[]))
         owner.append((sid, -1))
-        for i, e in enumerate(evs):
+        for i, e in enumerate(merge_env(evs)):
             fl = flatten(e)
             if fl is not None:
                 lines.append(fl)
@@ -117,6 +147,10 @@ def validate(ctx, sessions, runs, cap, sig, badsig, design=None, label="trace"):
     if r.ok and hw == len(lines) + 1:
         return True, dict(lines=len(lines))
     info = dict(lines=len(lines), violated=r.violated, highwater=hw)
+    if os.environ.get("VERIF_DEBUG"):
+        import shutil
+        shutil.copy(tpath, "/tmp/lastrej.ndjson")
+        shutil.copy(cfg, "/tmp/lastrej.cfg")
     if r.violated and r.violated not in ("postcondition",):
         # an invariant of the specification fails in a state of an accepted prefix
         ml = re.findall(r"\n/\\ l = (\d+)", r.out)
